@@ -2,6 +2,7 @@ package main
 
 import (
 	"fmt"
+	"go/ast"
 	"go/token"
 	"go/types"
 	"regexp"
@@ -67,6 +68,7 @@ var boundsTable = map[string]boundsEntry{
 	"b64decode|IsSliceInBounds|_[:_]": {"base64 Decode returns n <= len(dst)", nil},
 	"*Conversation.processExtraSymmetricKeyTLV|IsSliceInBounds|_.tlvValue[:_.tlvLength]": {"tlv.deserialize builds tlvValue as tlvsBytes[:tlvLength], so len(tlvValue) == tlvLength", nil},
 	"fragmentData|IsSliceInBounds|_[fragmentStart(_,_):fragmentEnd(_,_,_)]":              {"sender side: i*fraglen <= min((i+1)*fraglen, l) <= len(data) for i < numFragments (rule V.fragment-arith of C14)", nil},
+	"fragmentData|IsSliceInBounds|_[_*_:min((_+1)*_,_)]":                                 {"sender side: i*fraglen <= min((i+1)*fraglen, l) <= len(data) for i < numFragments (rule V.fragment-arith of C14)", nil},
 	"*Conversation.fragment|IsInBounds|fragmentSeparator[0]":                             {"package-level one-element slice (rule E.globals: never modified)", nil},
 	"ExtractFixedData|IsSliceInBounds|_[_:]":                                             {"len(d) >= l is tested; l is a caller-supplied length, not message data", []string{"passed:($l <= len($d))"}},
 	"DeserializeShort|IsInBounds|":                                                       {"documented to panic on short input; every library caller tests the length first (Extract*)", nil},
@@ -170,6 +172,13 @@ func (a *An) boundsTable(rule string) {
 		}
 		return okAny
 	}
+	dead := map[string]bool{}
+	for _, g := range a.C.FuncSeq {
+		if a.deadNew(g) {
+			dead[a.bceName(g)] = true
+		}
+	}
+	a.R.Extra["new_unreferenced_functions_skipped"] = len(dead)
 	seen := map[string]int{}
 	// reviewed multiplicities: how often each keyed expression occurs on the reviewed tree (more occurrences of the same
 	// shape in the same function are new sites); keys without an expression (inlined callee bodies) vary with inlining
@@ -248,6 +257,9 @@ func (a *An) boundsTable(rule string) {
 		}
 		if a.boundsFilter != nil && !a.boundsFilter(s.Func) {
 			continue
+		}
+		if !ok && dead[s.Func] {
+			continue // a new unexported function that nothing calls or takes the value of: no input reaches it
 		}
 		if !ok {
 			a.R.Viol(rule, "site|"+okey, "every bounds check the compiler cannot discharge is a reviewed one", pos,
@@ -992,4 +1004,30 @@ func (a *An) boundsTableFor(rule string, roots ...string) {
 	a.boundsFilter = func(fn string) bool { return set[fn] }
 	a.boundsTable(rule)
 	a.boundsFilter = nil
+}
+
+// deadNew: a function that is not in the reviewed tree, is not exported, is not a method (a method may be reached
+// through an interface), and is neither called nor used as a value anywhere in the two packages: no input reaches it.
+func (a *An) deadNew(g *ssa.Function) bool {
+	if g == nil || g.Blocks == nil || !a.C.isNew(g) || g.Parent() != nil || g.Signature.Recv() != nil || ast.IsExported(g.Name()) || g.Name() == "init" || g.Name() == "main" {
+		return false
+	}
+	if len(a.CallSites(g)) > 0 {
+		return false
+	}
+	for _, f := range a.C.FuncSeq {
+		for _, b := range f.Blocks {
+			for _, in := range b.Instrs {
+				for _, op := range in.Operands(nil) {
+					if op != nil && *op != nil {
+						if fv, ok := (*op).(*ssa.Function); ok && fv == g {
+							return false
+						}
+					}
+				}
+			}
+		}
+	}
+	// referenced from a package-level initialiser is covered: init functions are in FuncSeq
+	return true
 }
